@@ -19,6 +19,8 @@ from mc.core import Part
 MOD = "mc.props.c18"
 CIDS = {
     "valid": "D,Format,Delimited\nD,Line delimiter,LF\nF,id,,,,Integer,0...99\nF,name,,,1...5\nC,unique id,IsUnique,id\n",
+    "header1": "D,Format,Delimited\nD,Line delimiter,LF\nD,Header,1\nF,id,,,,Integer,0...99\nF,name,,,1...5\nC,unique id,IsUnique,id\n",
+    "header2": "D,Format,Delimited\nD,Line delimiter,LF\nD,Header,2\nF,id,,,,Integer,0...99\nF,name,,,1...5\nC,unique id,IsUnique,id\n",
     "rejected": "D,Format,Delimited\nF,id,,,,Integer,9...0\nF,name\n",
     "malformed": 'D,Format,Delimited\nF,id,,,,Integer,0...99\nF,"name\n',
     "ods": "D,Format,ODS\nF,id,,,,Integer,0...99\nF,name,,,1...5\nC,unique id,IsUnique,id\n",
@@ -26,8 +28,8 @@ CIDS = {
 }
 FILES = {
     "accepted": "1,ann\n2,bob\n3,cy\n",
-    "field": "1,ann\nx,bob\n3,cy\n",
-    "unique": "1,ann\n1,bob\n3,cy\n",
+    "field": "1,ann\n2,bob\nx,cy\n4,dee\n",
+    "unique": "1,ann\n2,bob\n3,cy\n3,dee\n",
     "sibling": "1,dan\n2,eve\n4,fay\n",
 }
 KINDS = ["accepted", "field", "unique", "sibling", "missing", "directory"]
@@ -176,6 +178,10 @@ def all_cases():
                 if cid != "valid" and (until not in (None, 2) or len(files) > 2):
                     continue
                 cases.append({"cid": cid, "files": files, "until": until})
+    for cid in ("header1", "header2"):  # the limit counts header rows, on the command line as in the API
+        for files in [list(p) for n in range(0, 3) for p in itertools.product(KINDS, repeat=n)]:
+            for until in UNTILS + [4]:
+                cases.append({"cid": cid, "files": files, "until": until})
     for cid in ("ods", "excel"):
         for files in [list(p) for n in range(0, 3) for p in itertools.product(KINDS, repeat=n)]:
             for until in (None, 0, 2):
@@ -197,7 +203,7 @@ def run(ctx):
                   {"cid": "valid", "files": ["accepted", "missing"], "until": None}, {"argv": []}, {"cid": "malformed", "files": ["accepted"], "until": None}]
     ctx.pmap(MOD, "subprocess_job", engine.chunks(subset, 4), label="C18 subprocess")
     ctx.bound = {"in-process cases": len(cases), "subprocess cases": len(subset), "file lists": "every list of 0..3 data files in every order over 6 kinds (259 lists)", "until": UNTILS,
-                 "CIDs": ["valid", "rejected by a rule", "malformed CSV container", "missing"]}
+                 "CIDs": ["valid", "valid with 1 or 2 header rows", "stored as ODS / Excel", "rejected by a rule", "malformed CSV container", "missing"]}
     ctx.rule = ("full product; oracle: 2 for argument faults, 3 if the CID or a named data file cannot be read, else 1 if the CID is rejected or any file is rejected by the API on a fresh CID (differential), else 0; "
                 "non-trivial = case whose expected exit code is not 0; states = CID kinds")
     ctx.assumptions = ["files after the first unreadable one are not judged", "SystemExit codes raised by argument parsing count as the exit code"]
